@@ -260,12 +260,17 @@ package db
 //@   requires [mode] !ixmode
 //@   ensures pos == old(pos) + 1 && (halt <==> done)
 
+// scan_ok: the last low-level scan returned without error. The selects built on the scans must not
+// turn a failed scan into success (C12).
+//@ ghost scan_ok bool
 //@ func (*db.Table).Scan
+//@   ghost-exit scan_ok = (r0 == nil)
+//@   ensures [status] scan_ok <==> r0 == nil
 //@   ghost-entry rb = 31
 //@   ghost-exit rb = old(rb)
 //@   props C01 C12 C17
 //@   uses table_tree
-//@   modifies * -M:S_db_KeyCol -M:S_sqlittle_columnIndex
+//@   modifies * -M:S_db_KeyCol -M:S_sqlittle_columnIndex scan_ok
 //@   requires t != nil && cb != nil
 //@   ghost-entry cur_tree = tree_of(t.root)
 //@   ghost-entry pos = p_lo(t.root)
@@ -387,11 +392,13 @@ package db
 //@   ensures [stop] done ==> halt
 
 //@ func (*db.Index).Scan
+//@   ghost-exit scan_ok = (r0 == nil)
+//@   ensures [status] scan_ok <==> r0 == nil
 //@   ghost-entry rb = 31
 //@   ghost-exit rb = old(rb)
 //@   props C02 C12 C17
 //@   uses index_tree
-//@   modifies * -M:S_db_KeyCol -M:S_sqlittle_columnIndex
+//@   modifies * -M:S_db_KeyCol -M:S_sqlittle_columnIndex scan_ok
 //@   requires in != nil && cb != nil
 //@   ghost-entry cur_tree = tree_of(in.root)
 //@   ghost-entry pos = p_lo(in.root)
@@ -497,11 +504,13 @@ package db
 // The keyed scans of the low-level API.
 
 //@ func (*db.Index).ScanMin
+//@   ghost-exit scan_ok = (r0 == nil)
+//@   ensures [status] scan_ok <==> r0 == nil
 //@   ghost-entry rb = 31
 //@   ghost-exit rb = old(rb)
 //@   props C03 C13 C12 C17
 //@   uses index_tree index_sorted
-//@   modifies * -M:S_db_KeyCol -M:S_sqlittle_columnIndex
+//@   modifies * -M:S_db_KeyCol -M:S_sqlittle_columnIndex scan_ok
 //@   requires in != nil && cb != nil && tree_of(in.root) == in.root && KEYOK(from)
 //@   ghost-entry cur_tree = in.root
 //@   ghost-entry searching = true
@@ -527,11 +536,13 @@ package db
 //@   free-requires cb != nil && !eqmode && !rngmode && ixmode
 
 //@ func (*db.Index).ScanEq
+//@   ghost-exit scan_ok = (r0 == nil)
+//@   ensures [status] scan_ok <==> r0 == nil
 //@   ghost-entry rb = 31
 //@   ghost-exit rb = old(rb)
 //@   props C03 C13 C12 C17
 //@   uses index_tree index_sorted
-//@   modifies * -M:S_db_KeyCol -M:S_sqlittle_columnIndex
+//@   modifies * -M:S_db_KeyCol -M:S_sqlittle_columnIndex scan_ok
 //@   requires in != nil && cb != nil && tree_of(in.root) == in.root && KEYOK(key)
 //@   ghost-entry cur_tree = in.root
 //@   ghost-entry searching = true
@@ -560,11 +571,13 @@ package db
 //@   ghost-exit halt = halt || done
 
 //@ func (*db.Index).ScanRange
+//@   ghost-exit scan_ok = (r0 == nil)
+//@   ensures [status] scan_ok <==> r0 == nil
 //@   ghost-entry rb = 31
 //@   ghost-exit rb = old(rb)
 //@   props C03 C13 C12 C17
 //@   uses index_tree index_sorted
-//@   modifies * -M:S_db_KeyCol -M:S_sqlittle_columnIndex
+//@   modifies * -M:S_db_KeyCol -M:S_sqlittle_columnIndex scan_ok
 //@   requires in != nil && cb != nil && tree_of(in.root) == in.root && KEYOK(from) && KEYOK(to)
 //@   ghost-entry cur_tree = in.root
 //@   ghost-entry searching = true
